@@ -25,6 +25,7 @@ type FuncInfo struct {
 	loops map[ast.Node]int // loop ordinal (1-based, syntactic order)
 	rets  map[ast.Node]int // return statement ordinal (1-based, syntactic order)
 	boxed map[*types.Var]bool
+	acqLock *string
 }
 
 type Engine struct {
@@ -43,6 +44,7 @@ type Engine struct {
 	curFn   string
 	verbose bool
 	forceMerge bool
+	assignedFields map[string]bool // heap keys of struct fields assigned somewhere in the loaded packages (others are set only by composite literals: immutable)
 }
 
 func NewEngine(repo string) *Engine {
@@ -90,6 +92,7 @@ func (e *Engine) Load() error {
 			}
 		}
 	}
+	e.computeAssignedFields()
 	return nil
 }
 
@@ -688,10 +691,70 @@ func initHeapSym(st *State, key string, s *Sort) *Term {
 	return Var(fmt.Sprintf("H%d$%s", st.epoch, smtIdent(strings.TrimPrefix(key, jivaMod+"/"))), s)
 }
 
-// havocAll forgets everything about the heap and the ghost state (a callee with an unchecked frame ran).
+// computeAssignedFields scans every loaded function body for writes to struct fields.
+func (e *Engine) computeAssignedFields() {
+	e.assignedFields = map[string]bool{}
+	for _, p := range e.pkgs {
+		info := p.TypesInfo
+		mark := func(x ast.Expr) {
+			for {
+				switch y := x.(type) {
+				case *ast.ParenExpr:
+					x = y.X
+					continue
+				case *ast.IndexExpr:
+					x = y.X
+					continue
+				case *ast.StarExpr:
+					x = y.X
+					continue
+				}
+				break
+			}
+			if sx, ok := x.(*ast.SelectorExpr); ok {
+				if sel := info.Selections[sx]; sel != nil && sel.Kind() == types.FieldVal {
+					e.fieldKeysOfSelection(sel, func(key string, f *types.Var) { e.assignedFields[key] = true })
+				}
+			}
+		}
+		for _, f := range p.Syntax {
+			ast.Inspect(f, func(n ast.Node) bool {
+				switch s := n.(type) {
+				case *ast.AssignStmt:
+					for _, l := range s.Lhs {
+						mark(l)
+					}
+				case *ast.IncDecStmt:
+					mark(s.X)
+				case *ast.RangeStmt:
+					if s.Key != nil {
+						mark(s.Key)
+					}
+					if s.Value != nil {
+						mark(s.Value)
+					}
+				case *ast.UnaryExpr:
+					if s.Op == token.AND {
+						mark(s.X)
+					}
+				}
+				return true
+			})
+		}
+	}
+}
+
+// havocAll forgets everything about the heap and the ghost state (a callee with an unchecked frame ran),
+// except fields that are never assigned after construction anywhere in the loaded packages.
 func (e *Engine) havocAll(st *State) {
 	al := st.heap["$alloc"]
-	st.heap = map[string]*Term{}
+	keep := map[string]*Term{}
+	for k, v := range st.heap {
+		if !strings.HasPrefix(k, "ghost:") && !strings.HasPrefix(k, "global:") && !strings.HasPrefix(k, "box$") && !strings.HasPrefix(k, "cell:") && k != "$alloc" && !e.assignedFields[k] {
+			keep[k] = v
+		}
+	}
+	st.heap = keep
 	freshCtr++
 	st.epoch = freshCtr
 	if al != nil {
